@@ -2,7 +2,7 @@
 parse CBMC's per-check verdicts, extract concrete counterexample values (-Z concrete-playback) for native replay."""
 import os, re, subprocess, time, json, resource, concurrent.futures as cf
 from . import build
-KDIR = os.path.join(build.VERIF, 'kani')
+KDIR = build.crate_copy('kani')
 
 def _limits():
     gb = int(os.environ.get('VERIF_KANI_MEM_GB', '20'))
